@@ -251,3 +251,265 @@ Proof.
                     | |- context [Rlt_dec ?a ?b] => destruct (Rlt_dec a b); try lra end.
   repeat split; f_equal; lra.
 Qed.
+
+From Compute Require Import Base.RsExpr Generated.dists Proofs.TieA_dists.
+
+(** ** 9. Tie A: the model IS the source (expression translator).  [Generated/dists.v] is re-translated from
+    src/distributions/*.rs on every run (tools/tiea/dists.py, tools/rsexpr.py), operation for operation; each theorem
+    says that the translated body of the Rust function and the hand-written model function are the same function, for
+    EVERY carrier [T] and every operations record [O] (so in particular on the reals, where the theorems above live,
+    and on binary64 with any libm table, where the correspondence runs).  42 functions: 9 pdf, Normal's ln_pdf and
+    cdf, the trait default ln_pdf, 4 pmf, 13 mean, 13 var. *)
+Theorem C02_model_is_source_Beta_pdf :
+  forall (T : Type) (O : Ops T) (Bet : T -> T -> T) (a b x : T),
+    Beta_pdf O Bet a b x = pdf_beta O Bet a b x.
+Proof. exact @tiea_Beta_pdf. Qed.
+Theorem C02_model_is_source_ChiSquared_pdf :
+  forall (T : Type) (O : Ops T) (Gam : T -> T) (k : Z) (x : T),
+    ChiSquared_pdf O Gam k x = pdf_chisq O Gam k x.
+Proof. exact @tiea_ChiSquared_pdf. Qed.
+Theorem C02_model_is_source_Exponential_pdf :
+  forall (T : Type) (O : Ops T) (l x : T),
+    Exponential_pdf O l x = pdf_exponential O l x.
+Proof. exact @tiea_Exponential_pdf. Qed.
+Theorem C02_model_is_source_Gamma_pdf :
+  forall (T : Type) (O : Ops T) (Gam : T -> T) (a b x : T),
+    Gamma_pdf O Gam a b x = pdf_gamma O Gam a b x.
+Proof. exact @tiea_Gamma_pdf. Qed.
+Theorem C02_model_is_source_Gumbel_pdf :
+  forall (T : Type) (O : Ops T) (mu b x : T),
+    Gumbel_pdf O mu b x = pdf_gumbel O mu b x.
+Proof. exact @tiea_Gumbel_pdf. Qed.
+Theorem C02_model_is_source_Normal_pdf :
+  forall (T : Type) (O : Ops T) (mu s x : T),
+    Normal_pdf O mu s x = pdf_normal O mu s x.
+Proof. exact @tiea_Normal_pdf. Qed.
+Theorem C02_model_is_source_Pareto_pdf :
+  forall (T : Type) (O : Ops T) (a m x : T),
+    Pareto_pdf O a m x = pdf_pareto O a m x.
+Proof. exact @tiea_Pareto_pdf. Qed.
+Theorem C02_model_is_source_T_pdf :
+  forall (T : Type) (O : Ops T) (Gam : T -> T) (nu x : T),
+    T_pdf O Gam nu x = pdf_t O Gam nu x.
+Proof. exact @tiea_T_pdf. Qed.
+Theorem C02_model_is_source_Uniform_pdf :
+  forall (T : Type) (O : Ops T) (lo hi x : T),
+    Uniform_pdf O lo hi x = pdf_uniform O lo hi x.
+Proof. exact @tiea_Uniform_pdf. Qed.
+Theorem C02_model_is_source_Normal_ln_pdf :
+  forall (T : Type) (O : Ops T) (mu s x : T),
+    Normal_ln_pdf O mu s x = ln_pdf_normal O mu s x.
+Proof. exact @tiea_Normal_ln_pdf. Qed.
+Theorem C02_model_is_source_Normal_cdf :
+  forall (T : Type) (O : Ops T) (Erf : T -> T) (mu s x : T),
+    Normal_cdf O Erf mu s x = cdf_normal O Erf mu s x.
+Proof. exact @tiea_Normal_cdf. Qed.
+Theorem C02_model_is_source_Bernoulli_pmf :
+  forall (T : Type) (O : Ops T) (p : T) (k : Z),
+    Bernoulli_pmf O p k = pmf_bernoulli O p k.
+Proof. exact @tiea_Bernoulli_pmf. Qed.
+Theorem C02_model_is_source_Binomial_pmf :
+  forall (T : Type) (O : Ops T) (n : Z) (p : T) (k : Z),
+    Binomial_pmf O n p k = pmf_binomial O n p k.
+Proof. exact @tiea_Binomial_pmf. Qed.
+Theorem C02_model_is_source_DiscreteUniform_pmf :
+  forall (T : Type) (O : Ops T) (lo hi k : Z),
+    DiscreteUniform_pmf O lo hi k = pmf_duniform O lo hi k.
+Proof. exact @tiea_DiscreteUniform_pmf. Qed.
+Theorem C02_model_is_source_Poisson_pmf :
+  forall (T : Type) (O : Ops T) (l : T) (k : Z),
+    Poisson_pmf O l k = pmf_poisson O l k.
+Proof. exact @tiea_Poisson_pmf. Qed.
+Theorem C02_model_is_source_Bernoulli_mean :
+  forall (T : Type) (O : Ops T) (p : T),
+    Bernoulli_mean O p = mean_of O (DBernoulli p).
+Proof. exact @tiea_Bernoulli_mean. Qed.
+Theorem C02_model_is_source_Bernoulli_var :
+  forall (T : Type) (O : Ops T) (p : T),
+    Bernoulli_var O p = var_of O (DBernoulli p).
+Proof. exact @tiea_Bernoulli_var. Qed.
+Theorem C02_model_is_source_Beta_mean :
+  forall (T : Type) (O : Ops T) (a b : T),
+    Beta_mean O a b = mean_of O (DBeta a b).
+Proof. exact @tiea_Beta_mean. Qed.
+Theorem C02_model_is_source_Beta_var :
+  forall (T : Type) (O : Ops T) (a b : T),
+    Beta_var O a b = var_of O (DBeta a b).
+Proof. exact @tiea_Beta_var. Qed.
+Theorem C02_model_is_source_Binomial_mean :
+  forall (T : Type) (O : Ops T) (n : Z) (p : T),
+    Binomial_mean O n p = mean_of O (DBinomial n p).
+Proof. exact @tiea_Binomial_mean. Qed.
+Theorem C02_model_is_source_Binomial_var :
+  forall (T : Type) (O : Ops T) (n : Z) (p : T),
+    Binomial_var O n p = var_of O (DBinomial n p).
+Proof. exact @tiea_Binomial_var. Qed.
+Theorem C02_model_is_source_ChiSquared_mean :
+  forall (T : Type) (O : Ops T) (k : Z),
+    ChiSquared_mean O k = mean_of O (DChiSquared k).
+Proof. exact @tiea_ChiSquared_mean. Qed.
+Theorem C02_model_is_source_ChiSquared_var :
+  forall (T : Type) (O : Ops T) (k : Z),
+    ChiSquared_var O k = var_of O (DChiSquared k).
+Proof. exact @tiea_ChiSquared_var. Qed.
+Theorem C02_model_is_source_DiscreteUniform_mean :
+  forall (T : Type) (O : Ops T) (lo hi : Z),
+    DiscreteUniform_mean O lo hi = mean_of O (DDiscreteUniform lo hi).
+Proof. exact @tiea_DiscreteUniform_mean. Qed.
+Theorem C02_model_is_source_DiscreteUniform_var :
+  forall (T : Type) (O : Ops T) (lo hi : Z),
+    DiscreteUniform_var O lo hi = var_of O (DDiscreteUniform lo hi).
+Proof. exact @tiea_DiscreteUniform_var. Qed.
+Theorem C02_model_is_source_Exponential_mean :
+  forall (T : Type) (O : Ops T) (l : T),
+    Exponential_mean O l = mean_of O (DExponential l).
+Proof. exact @tiea_Exponential_mean. Qed.
+Theorem C02_model_is_source_Exponential_var :
+  forall (T : Type) (O : Ops T) (l : T),
+    Exponential_var O l = var_of O (DExponential l).
+Proof. exact @tiea_Exponential_var. Qed.
+Theorem C02_model_is_source_Gamma_mean :
+  forall (T : Type) (O : Ops T) (a b : T),
+    Gamma_mean O a b = mean_of O (DGamma a b).
+Proof. exact @tiea_Gamma_mean. Qed.
+Theorem C02_model_is_source_Gamma_var :
+  forall (T : Type) (O : Ops T) (a b : T),
+    Gamma_var O a b = var_of O (DGamma a b).
+Proof. exact @tiea_Gamma_var. Qed.
+Theorem C02_model_is_source_Gumbel_mean :
+  forall (T : Type) (O : Ops T) (mu b : T),
+    Gumbel_mean O mu b = mean_of O (DGumbel mu b).
+Proof. exact @tiea_Gumbel_mean. Qed.
+Theorem C02_model_is_source_Gumbel_var :
+  forall (T : Type) (O : Ops T) (mu b : T),
+    Gumbel_var O mu b = var_of O (DGumbel mu b).
+Proof. exact @tiea_Gumbel_var. Qed.
+Theorem C02_model_is_source_Normal_mean :
+  forall (T : Type) (O : Ops T) (mu s : T),
+    Normal_mean O mu s = mean_of O (DNormal mu s).
+Proof. exact @tiea_Normal_mean. Qed.
+Theorem C02_model_is_source_Normal_var :
+  forall (T : Type) (O : Ops T) (mu s : T),
+    Normal_var O mu s = var_of O (DNormal mu s).
+Proof. exact @tiea_Normal_var. Qed.
+Theorem C02_model_is_source_Pareto_mean :
+  forall (T : Type) (O : Ops T) (a m : T),
+    Pareto_mean O a m = mean_of O (DPareto a m).
+Proof. exact @tiea_Pareto_mean. Qed.
+Theorem C02_model_is_source_Pareto_var :
+  forall (T : Type) (O : Ops T) (a m : T),
+    Pareto_var O a m = var_of O (DPareto a m).
+Proof. exact @tiea_Pareto_var. Qed.
+Theorem C02_model_is_source_Poisson_mean :
+  forall (T : Type) (O : Ops T) (l : T),
+    Poisson_mean O l = mean_of O (DPoisson l).
+Proof. exact @tiea_Poisson_mean. Qed.
+Theorem C02_model_is_source_Poisson_var :
+  forall (T : Type) (O : Ops T) (l : T),
+    Poisson_var O l = var_of O (DPoisson l).
+Proof. exact @tiea_Poisson_var. Qed.
+Theorem C02_model_is_source_T_mean :
+  forall (T : Type) (O : Ops T) (nu : T),
+    T_mean O nu = mean_of O (DT nu).
+Proof. exact @tiea_T_mean. Qed.
+Theorem C02_model_is_source_T_var :
+  forall (T : Type) (O : Ops T) (nu : T),
+    T_var O nu = var_of O (DT nu).
+Proof. exact @tiea_T_var. Qed.
+Theorem C02_model_is_source_Uniform_mean :
+  forall (T : Type) (O : Ops T) (lo hi : T),
+    Uniform_mean O lo hi = mean_of O (DUniform lo hi).
+Proof. exact @tiea_Uniform_mean. Qed.
+Theorem C02_model_is_source_Uniform_var :
+  forall (T : Type) (O : Ops T) (lo hi : T),
+    Uniform_var O lo hi = var_of O (DUniform lo hi).
+Proof. exact @tiea_Uniform_var. Qed.
+Theorem C02_model_is_source_Continuous_ln_pdf :
+  forall (T : Type) (O : Ops T) (Gam : T -> T) (Bet : T -> T -> T) (d : dist T) (x : T),
+    (forall mu s : T, d <> DNormal mu s) ->
+    ln_pdf O Gam Bet d x = option_map (fun v : T => Continuous_ln_pdf O (fun _ : T => v) x) (pdf O Gam Bet d x).
+Proof. exact @tiea_Continuous_ln_pdf. Qed.
+
+(** Tie A, constructors: the model's [valid] is "none of [new]'s own panic!/assert! fires" ([<Law>_new_guard], translated
+    from the source in guard mode; the cached sub-samplers built by the struct literal are C18's Tie A).  [Binomial::new]
+    takes [n : u64]; the model's [0 <= n] is that type's range. *)
+Theorem C02_model_is_source_Bernoulli_new_guard :
+  forall (T : Type) (O : Ops T) (p : T),
+    Bernoulli_new_guard O p = valid O (DBernoulli p).
+Proof. exact @tiea_Bernoulli_new_guard. Qed.
+Theorem C02_model_is_source_Beta_new_guard :
+  forall (T : Type) (O : Ops T) (a b : T),
+    Beta_new_guard O a b = valid O (DBeta a b).
+Proof. exact @tiea_Beta_new_guard. Qed.
+Theorem C02_model_is_source_Binomial_new_guard :
+  forall (T : Type) (O : Ops T) (n : Z) (p : T),
+    (0 <= n)%Z -> Binomial_new_guard O n p = valid O (DBinomial n p).
+Proof. exact @tiea_Binomial_new_guard. Qed.
+Theorem C02_model_is_source_ChiSquared_new_guard :
+  forall (T : Type) (O : Ops T) (k : Z),
+    ChiSquared_new_guard O k = valid (T:=T) O (DChiSquared k).
+Proof. exact @tiea_ChiSquared_new_guard. Qed.
+Theorem C02_model_is_source_DiscreteUniform_new_guard :
+  forall (T : Type) (O : Ops T) (lo hi : Z),
+    DiscreteUniform_new_guard O lo hi = valid (T:=T) O (DDiscreteUniform lo hi).
+Proof. exact @tiea_DiscreteUniform_new_guard. Qed.
+Theorem C02_model_is_source_Exponential_new_guard :
+  forall (T : Type) (O : Ops T) (l : T),
+    Exponential_new_guard O l = valid O (DExponential l).
+Proof. exact @tiea_Exponential_new_guard. Qed.
+Theorem C02_model_is_source_Gamma_new_guard :
+  forall (T : Type) (O : Ops T) (a b : T),
+    Gamma_new_guard O a b = valid O (DGamma a b).
+Proof. exact @tiea_Gamma_new_guard. Qed.
+Theorem C02_model_is_source_Gumbel_new_guard :
+  forall (T : Type) (O : Ops T) (mu b : T),
+    Gumbel_new_guard O mu b = valid O (DGumbel mu b).
+Proof. exact @tiea_Gumbel_new_guard. Qed.
+Theorem C02_model_is_source_Normal_new_guard :
+  forall (T : Type) (O : Ops T) (mu s : T),
+    Normal_new_guard O mu s = valid O (DNormal mu s).
+Proof. exact @tiea_Normal_new_guard. Qed.
+Theorem C02_model_is_source_Pareto_new_guard :
+  forall (T : Type) (O : Ops T) (a m : T),
+    Pareto_new_guard O a m = valid O (DPareto a m).
+Proof. exact @tiea_Pareto_new_guard. Qed.
+Theorem C02_model_is_source_Poisson_new_guard :
+  forall (T : Type) (O : Ops T) (l : T),
+    Poisson_new_guard O l = valid O (DPoisson l).
+Proof. exact @tiea_Poisson_new_guard. Qed.
+Theorem C02_model_is_source_T_new_guard :
+  forall (T : Type) (O : Ops T) (nu : T),
+    T_new_guard O nu = valid O (DT nu).
+Proof. exact @tiea_T_new_guard. Qed.
+Theorem C02_model_is_source_Uniform_new_guard :
+  forall (T : Type) (O : Ops T) (lo hi : T),
+    Uniform_new_guard O lo hi = valid O (DUniform lo hi).
+Proof. exact @tiea_Uniform_new_guard. Qed.
+(** the dispatchers the correspondence runs ([None] = the constructor panics), written with the source's terms only *)
+Theorem C02_model_is_source_pdf_dispatch :
+  forall (T : Type) (O : Ops T) (Gam : T -> T) (Bet : T -> T -> T) (d : dist T) (x : T),
+    pdf O Gam Bet d x =
+    match d with
+    | DBeta a b => if Beta_new_guard O a b then Some (Beta_pdf O Bet a b x) else None
+    | DChiSquared k => if ChiSquared_new_guard O k then Some (ChiSquared_pdf O Gam k x) else None
+    | DExponential l => if Exponential_new_guard O l then Some (Exponential_pdf O l x) else None
+    | DGamma a b => if Gamma_new_guard O a b then Some (Gamma_pdf O Gam a b x) else None
+    | DGumbel mu b => if Gumbel_new_guard O mu b then Some (Gumbel_pdf O mu b x) else None
+    | DNormal mu s => if Normal_new_guard O mu s then Some (Normal_pdf O mu s x) else None
+    | DPareto a m => if Pareto_new_guard O a m then Some (Pareto_pdf O a m x) else None
+    | DT nu => if T_new_guard O nu then Some (T_pdf O Gam nu x) else None
+    | DUniform lo hi => if Uniform_new_guard O lo hi then Some (Uniform_pdf O lo hi x) else None
+    | _ => None
+    end.
+Proof. exact @tiea_pdf_dispatch. Qed.
+Theorem C02_model_is_source_pmf_dispatch :
+  forall (T : Type) (O : Ops T) (d : dist T) (k : Z),
+    pmf O d k =
+    match d with
+    | DBernoulli p => if Bernoulli_new_guard O p then Some (Bernoulli_pmf O p k) else None
+    | DBinomial n p => if ((0 <=? n)%Z && Binomial_new_guard O n p)%bool then Some (Binomial_pmf O n p k) else None
+    | DDiscreteUniform lo hi => if DiscreteUniform_new_guard O lo hi then Some (DiscreteUniform_pmf O lo hi k) else None
+    | DPoisson l => if Poisson_new_guard O l then Some (Poisson_pmf O l k) else None
+    | _ => None
+    end.
+Proof. exact @tiea_pmf_dispatch. Qed.
